@@ -34,7 +34,7 @@ def run_one(sid, in_repo):
             return {'id': sid, 'property': prop, 'error': 'patch does not apply: ' + r.stdout[-300:]}
         target = '/repo'
     else:
-        target = '/tmp/seedwt-%s' % sid
+        target = '/tmp/seedwt-%s-%d' % (sid, os.getpid())
         sh('git -C /repo worktree remove --force %s' % target)
         r = sh('git -C /repo worktree add -q --detach %s HEAD' % target)
         r = sh('git -C %s apply %s' % (target, patch))
